@@ -68,6 +68,7 @@ type microCtx struct {
 	tdeleted bool
 	viol     []vx.Found
 	conns    []*WConn
+	held     int64 // messages the stats account for at the idle point after the window (-1: n/a)
 }
 
 // bad records a violation; clause starts with the ids of the properties it belongs to.
@@ -191,6 +192,11 @@ var microOps = map[string]func(x *microCtx) string{
 	},
 	"rdy2": func(x *microCtx) string {
 		_, err := x.prot.RDY(x.k2, [][]byte{b("RDY"), b("1")})
+		return errStr(err)
+	},
+	"rdy2_2": func(x *microCtx) string {
+		// the second consumer becomes ready for two messages: the one at rest and a requeued one
+		_, err := x.prot.RDY(x.k2, [][]byte{b("RDY"), b("2")})
 		return errStr(err)
 	},
 	"rdy1_2": func(x *microCtx) string {
@@ -406,7 +412,7 @@ func (x *microCtx) setup() string {
 
 // RunMicro is the scenario body (thread 0 of a controlled execution).
 func RunMicro(spec MicroSpec) vx.Out {
-	x := &microCtx{spec: spec, deliv: map[string][]int{}, delivTo: map[string][]string{}, finOK: map[string]bool{}, delivBody: map[string]string{}, delivAt: map[string][]int64{}, touchOK: map[string]int64{}, touchBy: map[string]string{}, reqOK: map[string]int{}}
+	x := &microCtx{held: -1, spec: spec, deliv: map[string][]int{}, delivTo: map[string][]string{}, finOK: map[string]bool{}, delivBody: map[string]string{}, delivAt: map[string][]int64{}, touchOK: map[string]int64{}, touchBy: map[string]string{}, reqOK: map[string]int{}}
 	if e := x.setup(); e != "" {
 		if x.w != nil {
 			x.w.Release()
@@ -461,6 +467,12 @@ func RunMicro(spec MicroSpec) vx.Out {
 	if c := x.chanObj(); c != nil && !x.deleted && !x.tdeleted {
 		d := DumpChannel(c)
 		obs += fmt.Sprintf(" | depth=%d infl=%d pq=%d def=%d defpq=%d", d.Depth, len(d.InFlight), d.PQLen, len(d.Deferred), d.DefPQLen)
+		// what /stats reports as held at this idle point: channel depth + in flight + deferred,
+		// plus what still waits in the topic's own queue
+		x.held = d.Depth + int64(len(d.InFlight)) + int64(len(d.Deferred))
+		if t := w.Topic(x.topic); t != nil {
+			x.held += t.Depth()
+		}
 		if s := CheckChannelStructure(c); s != "" {
 			x.anomalies = append(x.anomalies, "after window: "+structClass(s))
 		}
@@ -656,6 +668,20 @@ func (x *microCtx) oracle() {
 					break
 				}
 			}
+		}
+	}
+	// (s) conservation: at the idle point after the window the channel's counts (depth, in
+	// flight, deferred) and the topic's depth account for every message still held; the
+	// drain publishes nothing, so it cannot be handed more distinct messages than that
+	if x.held >= 0 && !hasOp("create_ch2") {
+		n := int64(0)
+		for id, as := range x.deliv {
+			if len(as) > x.postWin[id] {
+				n++
+			}
+		}
+		if n > x.held {
+			x.bad("C13 C08 C03 message delivered that the counts at an idle point did not account for", "depth + in flight + deferred (+ topic depth) was %d once the window had closed and everything was idle, yet %d distinct messages were delivered afterwards with no publish: %s to %v", x.held, n, x.delivSummary(), x.delivTo)
 		}
 	}
 	// (d) one holder at a time: every delivery beyond the first of an id needs a requeue
